@@ -153,6 +153,104 @@ struct Item {
     gen_code: Option<String>,
 }
 
+/// heck's upper camel case for the identifiers the schema generator produces (lower-case words
+/// joined by `_`, optional trailing digit or underscore)
+fn upper_camel(s: &str) -> String {
+    // codegen/src/util.rs keeps leading and trailing underscores around the converted core
+    let trimmed = s.trim_start_matches('_');
+    let start = s.len() - trimmed.len();
+    let end = start + trimmed.trim_end_matches('_').len();
+    let core: String = s[start..end]
+        .split('_')
+        .filter(|w| !w.is_empty())
+        .map(|w| {
+            let mut c = w.chars();
+            match c.next() {
+                Some(f) => f.to_uppercase().collect::<String>() + &c.as_str().to_lowercase(),
+                None => String::new(),
+            }
+        })
+        .collect();
+    format!("{}{}{}", &s[..start], core, &s[end..])
+}
+
+/// Inline structs and enums of services under the names the code generator gives them
+/// (`codegen/src/rust/names.rs`): `<Service><Function>{Args,Ok,Error}`, `<Service><Event>Args`.
+fn inline_defs(schema: &ASchema) -> Vec<ADef> {
+    use crate::schema::gen::{AItem, APart};
+    let mut v = Vec::new();
+    let mut push = |name: String, p: &APart| match p {
+        APart::Struct(s) => {
+            let mut s = s.clone();
+            s.name = name;
+            v.push(ADef::Struct(s));
+        }
+        APart::Enum(e) => {
+            let mut e = e.clone();
+            e.name = name;
+            v.push(ADef::Enum(e));
+        }
+        APart::Type(_) => {}
+    };
+    for d in &schema.defs {
+        let ADef::Service(svc) = d else { continue };
+        for it in &svc.items {
+            match it {
+                AItem::Fn { name, args, ok, err, .. } => {
+                    let f = upper_camel(name);
+                    if let Some((_, p)) = args {
+                        push(format!("{}{}Args", svc.name, f), p);
+                    }
+                    if let Some((_, p)) = ok {
+                        push(format!("{}{}Ok", svc.name, f), p);
+                    }
+                    if let Some((_, p)) = err {
+                        push(format!("{}{}Error", svc.name, f), p);
+                    }
+                }
+                AItem::Event { name, ty, .. } => {
+                    if let Some(p) = ty {
+                        push(format!("{}{}Args", svc.name, upper_camel(name)), p);
+                    }
+                }
+            }
+        }
+    }
+    v
+}
+
+/// All types of a schema that get vectors: top-level structs/enums/newtypes plus the inline
+/// types of services whose generated name is found in the generator's output (a name this harness
+/// cannot predict is counted and skipped, never blamed on the subject).
+fn wire_types(it: &Item, out: Option<&mut Outcome>) -> Vec<ADef> {
+    let mut v: Vec<ADef> = it.schema.defs.iter().filter(|d| matches!(d, ADef::Struct(_) | ADef::Enum(_) | ADef::Newtype { .. })).cloned().collect();
+    let mut skipped = 0;
+    let mut names = Vec::new();
+    for d in inline_defs(&it.schema) {
+        let n = d.name();
+        let found = match &it.gen_code {
+            Some(code) => {
+                let kw = if matches!(d, ADef::Struct(_)) { "struct" } else { "enum" };
+                code.contains(&format!("pub {} {} ", kw, n)) || code.contains(&format!("pub {} r#{} ", kw, n))
+            }
+            None => false,
+        };
+        if found {
+            v.push(d);
+        } else {
+            skipped += 1;
+            names.push(d.name().to_string());
+        }
+    }
+    if let Some(out) = out {
+        out.count("inline_types_name_not_found", skipped);
+        for n in names {
+            out.seen("inline_types_name_not_found", &n);
+        }
+    }
+    v
+}
+
 fn scratch_root() -> PathBuf {
     let root = std::env::var("VERIF_ROOT").unwrap_or_else(|_| "/verif".into());
     PathBuf::from(root)
@@ -178,10 +276,7 @@ fn write_corpus(dir: &Path, items: &[&Item]) -> std::io::Result<()> {
             let _ = writeln!(main, "#[path = \"gen_s{}.rs\"] mod gen_s{};", i, i);
         }
         let _ = writeln!(main, "mod mac_s{} {{ ::aldrin::generate!(\"schemas/s{}.aldrin\", introspection = true); }}", i, i);
-        for d in &it.schema.defs {
-            if !matches!(d, ADef::Struct(_) | ADef::Enum(_) | ADef::Newtype { .. }) {
-                continue;
-            }
+        for d in &wire_types(it, None) {
             let n = d.name();
             if it.gen_code.is_some() {
                 let _ = writeln!(dispatch, "        \"{}/g/{}\" => Some(rt::<gen_s{}::r#{}>(b)),", i, n, i, n);
@@ -383,13 +478,13 @@ impl C16 {
             item: usize,
         }
         let mut vectors: Vec<Vector> = Vec::new();
+        let world: Vec<&ASchema> = items.iter().map(|i| &i.schema).collect();
         for &li in &live {
             let it = &items[li];
-            let env = Env { schema: &it.schema };
-            for d in &it.schema.defs {
-                if !matches!(d, ADef::Struct(_) | ADef::Enum(_) | ADef::Newtype { .. }) {
-                    continue;
-                }
+            let env = Env { schema: &it.schema, world: &world };
+            let types = wire_types(it, Some(out));
+            out.count("inline_service_types", types.iter().filter(|d| !it.schema.defs.iter().any(|x| x.name() == d.name())).count() as u64);
+            for d in &types {
                 for n in 0..6 {
                     let Some(v) = conforming_def(&env, d, &mut rng, 0, true) else {
                         out.count("types_without_finite_value", 1);
